@@ -455,9 +455,12 @@ def run_check(P, argv):
     cov['oracle_failures'] = len(fails)
     reported_known = set()
     new_fail = None
+    idx_of = {id(c): i for i, c in enumerate(all_cases)}
     for c in fails:
         cl = c.get('class') or ''
-        if cl in known:
+        # a listed finding is recognised by its class AND by the implementation still behaving as the
+        # faithful model (*_impl) predicts; any other failure inside the class is a new violation
+        if cl in known and idx_of[id(c)] not in mism:
             cov['known_finding_hits'] += 1
             if cl not in reported_known:
                 reported_known.add(cl)
